@@ -58,12 +58,12 @@ Qed.
 Lemma select_iff T rs excl inc n :
   node_is_selected T FDefault (Some rs) excl inc n = true <->
   (exists r l, In r rs /\ In l (rlocs r) /\ reports T (rcls r) (nkind n) (nspan n) l) /\
-  line_filter excl inc (nspan n) = true.
+  line_filter T excl inc (nspan n) = true.
 Proof. unfold node_is_selected. rewrite andb_true_iff, filter_by_result_default_iff. tauto. Qed.
 
 (** a codemod without detector results (results is None) selects by line filter only *)
 Lemma select_no_detector T excl inc n :
-  node_is_selected T FDefault None excl inc n = line_filter excl inc (nspan n).
+  node_is_selected T FDefault None excl inc n = line_filter T excl inc (nspan n).
 Proof. reflexivity. Qed.
 
 (** per-codemod overrides *)
@@ -74,7 +74,7 @@ Lemma select_fuzzy_iff T results excl inc n :
      pline (sstart (nspan n)) = pline (lstart l) /\ pline (send (nspan n)) = pline (lend l) /\
      pcol (sstart (nspan n)) <= pcol (lstart l) <= pcol (send (nspan n)) + 1 /\
      pcol (sstart (nspan n)) <= pcol (lend l) <= pcol (send (nspan n)) + 1) /\
-  line_filter excl inc (nspan n) = true.
+  line_filter T excl inc (nspan n) = true.
 Proof.
   unfold node_is_selected, filter_by_result. rewrite andb_true_iff.
   destruct (nkind n); try (split; [intros [H _]; discriminate | intros [H _]; discriminate]).
@@ -93,7 +93,7 @@ Lemma select_mktemp_iff T rs excl inc n :
   nkind n = KStmtLine /\
   (exists r l, In r rs /\ In l (rlocs r) /\
      pline (sstart (nspan n)) = pline (lstart l) /\ pline (send (nspan n)) = pline (lend l)) /\
-  line_filter excl inc (nspan n) = true.
+  line_filter T excl inc (nspan n) = true.
 Proof.
   unfold node_is_selected, filter_by_result. rewrite andb_true_iff.
   destruct (nkind n); try (split; [intros [H _]; discriminate | intros [H _]; discriminate]).
@@ -232,7 +232,7 @@ Qed.
 Lemma subset_exact T c cands S rs excl inc :
   discipline T c cands = true ->
   Forall2 (site_report T c) S rs -> incl S cands ->
-  forall n, In n cands -> line_filter excl inc (nspan n) = true ->
+  forall n, In n cands -> line_filter T excl inc (nspan n) = true ->
     (node_is_selected T FDefault (Some rs) excl inc n = true <-> In n S).
 Proof.
   intros Hd HF Hincl n Hn Hlf. rewrite select_iff. split.
@@ -499,7 +499,7 @@ Lemma join_iff T rs excl inc nodes n :
   In n (on_result_found_nodes T FDefault (Some rs) excl inc nodes) <->
   In n nodes /\ default_kind (nkind n) = true /\
   (exists r l, In r rs /\ In l (rlocs r) /\ reports T (rcls r) (nkind n) (nspan n) l) /\
-  line_filter excl inc (nspan n) = true.
+  line_filter T excl inc (nspan n) = true.
 Proof.
   unfold on_result_found_nodes. rewrite filter_In, andb_true_iff, select_iff. tauto.
 Qed.
